@@ -72,6 +72,8 @@ pub mod intermediate_representation;
 pub mod pcode;
 pub mod pipeline;
 pub mod utils;
+#[cfg(cwe_checker_verif)]
+pub mod verif_std;
 
 use utils::log::{CweWarning, LogMessage};
 
